@@ -85,6 +85,12 @@ def schedules(fam):
                       [opn("c1"), sub("c1", "a"), Q, ev("a", "change", k="x", val=R("d"), **st), dict(reply("get", "d"), **st),
                        ev("d", "custom", **st), ev("d", "change", k="w", val=P("5"), **st), dict(reply("get", "e"), **st), Q, ev("d", "custom"), Q]))
     if fam == "stream":
+        # a change event replaces the reference x -> d by x -> c while c, still to be loaded, refers to d: the client holds d
+        # throughout, so an event on d handed over meanwhile must reach it (defect repaired by fix ca71fbd)
+        out.append(SC(fam, "refswap", {"a": Mo(x=R("d")), "d": Mo(w=P("0")), "c": Mo(x=R("d"), z=P("1"))},
+                      [opn("c1"), sub("c1", "a"), Q, ev("a", "change", k="x", val=R("c"), settle=True), ev("d", "change", k="w", val=P("5"), settle=True),
+                       dict(reply("get", "c"), settle=True), Q, ev("d", "custom"), ev("d", "change", k="w", val=P("6")), Q]))
+    if fam == "stream":
         # clients of different protocol versions receive the same cached model / collection version (soft references and
         # data values are encoded differently for them), in both orders
         mixres = {"m": Mo(s={"t": "s", "v": "x"}, d={"t": "d", "v": '{"k":1}'}, p=P("1")), "col": {"k": "c", "c": [{"t": "s", "v": "x"}, {"t": "d", "v": '{"k":1}'}, P("2")]},
